@@ -147,6 +147,10 @@ class BitStringBitReader(BitReader):
         return self._bit_stream_read(fmt_string)
 
     def read_bool(self):
+        # bitstring raises a plain ValueError (not its own Error) for a bool
+        # read at the end of the stream
+        if self.bit_stream.pos >= self.bit_stream.len:
+            raise BitReadError('Needed a length of at least 1 bits, but only 0 bits were available.')
         return self._bit_stream_read('bool')
 
     def read_bin(self, nbits):
